@@ -24,6 +24,7 @@ REAL = {
     "jpsi_gpp_f0": dict(initial_state=[("J/psi(1S)", [-1, 1])], final_state=["gamma", "pi0", "pi0"], allowed_intermediate_particles=["f(0)(980)", "f(0)(1500)"], allowed_interaction_types=["strong", "EM"]),
     "jpsi_gpp_f2": dict(initial_state=[("J/psi(1S)", [1])], final_state=["gamma", "pi0", "pi0"], allowed_intermediate_particles=["f(2)(1270)"], allowed_interaction_types=["strong", "EM"]),
     "jpsi_gpp_omega": dict(initial_state=[("J/psi(1S)", [1])], final_state=["gamma", "pi0", "pi0"], allowed_intermediate_particles=["omega(782)"], allowed_interaction_types=["strong", "EM"]),
+    "jpsi_gpp_omega_all": dict(initial_state="J/psi(1S)", final_state=["gamma", "pi0", "pi0"], allowed_intermediate_particles=["omega(782)"], allowed_interaction_types=["strong", "EM"]),
     "jpsi_3pi_rho0": dict(initial_state="J/psi(1S)", final_state=["pi0", "pi+", "pi-"], allowed_intermediate_particles=["rho(770)0"], allowed_interaction_types="strong"),
     "jpsi_3pi_rho": dict(initial_state="J/psi(1S)", final_state=["pi0", "pi+", "pi-"], allowed_intermediate_particles=["rho(770)"], allowed_interaction_types="strong"),
     "jpsi_ksp_sigma": dict(initial_state="J/psi(1S)", final_state=["K0", "Sigma+", "p~"], allowed_intermediate_particles=["Sigma(1660)"], allowed_interaction_types="strong"),
